@@ -138,8 +138,8 @@ IsMergeOfR(b, a, i, j) ==   \* b[i..] merges a[j..]
   IF i > Len(b) THEN j > Len(a)
   ELSE \E k \in j..Len(a) : Prod(SubSeq(a, j, k)) = b[i] /\ IsMergeOfR(b, a, i + 1, k + 1)
 IsMergeOf(b, a) == IF Len(a) = 0 THEN Len(b) = 0 ELSE Len(b) >= 1 /\ IsMergeOfR(b, a, 1, 1)
-\* elementwise map used by the harness: x |-> 2x + 1
-AMap(t) == T(t.shape, [k \in 1..Len(t.data) |-> 2 * t.data[k] + 1])
+\* elementwise map used by the harness: x |-> x XOR 1 (never overflows, whatever the element is)
+AMap(t) == T(t.shape, [k \in 1..Len(t.data) |-> IF t.data[k] % 2 = 0 THEN t.data[k] + 1 ELSE t.data[k] - 1])
 \* concatenation along `axis`
 AAppendOk(t, o, axis) ==
   /\ axis >= 0 /\ axis < ARank(t) /\ ARank(o) = ARank(t)
